@@ -122,7 +122,8 @@ P0 == [st |-> "forLine", ip |-> 1, tok |-> T("eof",0), eofF |-> FALSE, lb |-> <<
        cl |-> "", ll |-> << >>, tw |-> 0, fc |-> 0, cont |-> << >>, depth |-> 0]
 
 \* no two adjacent number tokens (their texts would be concatenated by the real evaluator: "0" "2" reads as 02)
-NoAdjNums(s) == \A i \in 1..Len(s)-1 : ~(s[i].t = "num" /\ s[i+1].t = "num")
+\* (comments inside a FOR count are skipped, so numbers separated only by comments are adjacent too)
+NoAdjNums(s) == \A i, j \in 1..Len(s) : (i < j /\ s[i].t = "num" /\ s[j].t = "num") => \E k \in i+1..j-1 : s[k].t # "cmt"
 Inputs(m) == { s \in UNION { [1..n -> Alphabet] : n \in 0..m } : NoAdjNums(s) }
 \* family "block": well-formed-ish blocks  <labels> for <count> NL <body of <= L tokens> rof NL <post>, so that real
 \* expansions (counter substitution, renamed line labels, nested for/rof) are reached with short bodies
